@@ -10,6 +10,7 @@ A rejected scenario is executed once more (with a three times longer settle time
 if rejections do not reproduce too often the host is declared too noisy (exit 2)."""
 import json
 import random
+import re
 from concurrent.futures import ThreadPoolExecutor
 import vlib
 
@@ -116,12 +117,20 @@ def run(c):
         tp = c.path("sem_rerun_trace_%d.ndjson" % i)
         vlib.ndjson_write(sp, [dict(script=script)])
         c.vh(["semrun", "-par", 1, "-settle", 3 * SETTLE, "-slack", SLACK, sp, tp])
-        r2 = vlib.validate_scenarios(c, "msc", "SemaphoreTrace", tp, chunks=1, max_rej=1)
-        return lab, script, rej, r2
+        ok, rejline, _ = c.validate_trace("msc", "SemaphoreTrace", tp, heap="2g")
+        rej2 = None
+        if not ok:
+            m = re.match(r'<<"REJECTED", (\d+), (.*)>>$', rejline)
+            try:
+                rec = json.loads(json.loads(m.group(2)))
+            except ValueError:
+                rec = m.group(2)
+            rej2 = dict(line=int(m.group(1)), record=rec, scenario=vlib.ndjson_read(tp))
+        return lab, script, rej, rej2
     with ThreadPoolExecutor(max_workers=4) as ex:
         for lab, script, rej, r2 in ex.map(second, todo):
-            if r2["rejections"] and label(r2["rejections"][0]) == lab:
-                confirmed.append((lab, script, rej, r2["rejections"][0]))
+            if r2 is not None and label(r2) == lab:
+                confirmed.append((lab, script, rej, r2))
             else:
                 noise += 1
                 c.notes.append("rejection '%s' of script [%s] did not reproduce on the second run" % (lab, " ".join(map(step_str, script))))
